@@ -18,9 +18,31 @@ namespace SPM = WorldBuilder::Features::SubductingPlateModels;
 namespace FLM = WorldBuilder::Features::FaultModels;
 typedef Objects::Segment<SPM::Temperature::Interface, SPM::Composition::Interface, SPM::Grains::Interface, SPM::Velocity::Interface> SlabSeg;
 typedef Objects::Segment<FLM::Temperature::Interface, FLM::Composition::Interface, FLM::Grains::Interface, FLM::Velocity::Interface> FaultSeg;
-namespace { unsigned n_coordinates = 2, n_segments = 1; }
+namespace
+{
+  unsigned n_coordinates = 2, n_segments = 1;
+  // section overrides (C12.sections / C10.sections): k sections, each with its own coordinate number and segment list.  The real
+  // code re-reads every section once per coordinate; the stub answers the j-th visit with section j mod k, always with the same values.
+  struct SegVals { double len, t0, t1, tr0, tr1, d0, d1; };
+  unsigned n_overrides = 0, n_override_segments = 1, visits = 0, segment_calls = 0, current_override = 0;
+  SegVals default_vals[3], override_vals[2][3]; unsigned override_coordinate[2];
+  SegVals draw() { SegVals v = {sym_f64("segment length"), sym_f64("thickness top"), sym_f64("thickness bottom"), sym_f64("truncation top"), sym_f64("truncation bottom"), sym_f64("dip top"), sym_f64("dip bottom")};
+                   sym_assume(v.len >= 0 && v.t0 >= 0 && v.t1 >= 0); return v; }
+  bool coordinate_hook(const std::string &name, unsigned &r)
+  { if (!(name == "coordinate") || n_overrides == 0) return false; current_override = visits++ % n_overrides; r = override_coordinate[current_override]; return true; }
+}
+template <class Seg, class A, class B, class C, class D> static std::vector<Seg> segments_from(const SegVals *vals, const unsigned n)
+{
+  std::vector<Seg> v;
+  for (unsigned i = 0; i < n; ++i)
+    v.emplace_back(vals[i].len, Point<2>(vals[i].t0, vals[i].t1, cartesian), Point<2>(vals[i].tr0, vals[i].tr1, cartesian), Point<2>(vals[i].d0, vals[i].d1, cartesian),
+                   std::vector<std::shared_ptr<A>>(), std::vector<std::shared_ptr<B>>(), std::vector<std::shared_ptr<C>>(), std::vector<std::shared_ptr<D>>());
+  return v;
+}
 template <class Seg, class A, class B, class C, class D> static std::vector<Seg> make_segments()
 {
+  if (n_overrides > 0)
+    return segment_calls++ == 0 ? segments_from<Seg, A, B, C, D>(default_vals, n_segments) : segments_from<Seg, A, B, C, D>(override_vals[current_override], n_override_segments);
   std::vector<Seg> v;
   for (unsigned i = 0; i < n_segments; ++i)
     {
@@ -43,8 +65,8 @@ extern "C" {
 #define NO_MODELS(NS, KIND) bool __wrap__ZN12WorldBuilder10Parameters19get_shared_pointersINS_8Features##NS##KIND##9InterfaceEEEbRKNSt7__cxx1112basic_stringIcSt11char_traitsIcESaIcEEERSt6vectorISt10shared_ptrIT_ESaISH_EE(Parameters *, const std::string *, void *) { return false; }
   NO_MODELS(21SubductingPlateModels, 11Temperature) NO_MODELS(21SubductingPlateModels, 11Composition) NO_MODELS(21SubductingPlateModels, 6Grains) NO_MODELS(21SubductingPlateModels, 8Velocity)
   NO_MODELS(11FaultModels, 11Temperature) NO_MODELS(11FaultModels, 11Composition) NO_MODELS(11FaultModels, 6Grains) NO_MODELS(11FaultModels, 8Velocity)
-  bool __wrap__ZN12WorldBuilder10Parameters19get_unique_pointersINS_8Features15SubductingPlateEEEbRKNSt7__cxx1112basic_stringIcSt11char_traitsIcESaIcEEERSt6vectorISt10unique_ptrIT_St14default_deleteISE_EESaISH_EE(Parameters *, const std::string *, void *) { return false; }
-  bool __wrap__ZN12WorldBuilder10Parameters19get_unique_pointersINS_8Features5FaultEEEbRKNSt7__cxx1112basic_stringIcSt11char_traitsIcESaIcEEERSt6vectorISt10unique_ptrIT_St14default_deleteISE_EESaISH_EE(Parameters *, const std::string *, void *) { return false; }
+  bool __wrap__ZN12WorldBuilder10Parameters19get_unique_pointersINS_8Features15SubductingPlateEEEbRKNSt7__cxx1112basic_stringIcSt11char_traitsIcESaIcEEERSt6vectorISt10unique_ptrIT_St14default_deleteISE_EESaISH_EE(Parameters *, const std::string *, std::vector<std::unique_ptr<Features::SubductingPlate>> *v) { v->resize(n_overrides); return n_overrides > 0; }
+  bool __wrap__ZN12WorldBuilder10Parameters19get_unique_pointersINS_8Features5FaultEEEbRKNSt7__cxx1112basic_stringIcSt11char_traitsIcESaIcEEERSt6vectorISt10unique_ptrIT_St14default_deleteISE_EESaISH_EE(Parameters *, const std::string *, std::vector<std::unique_ptr<Features::Fault>> *v) { v->resize(n_overrides); return n_overrides > 0; }
 }
 extern "C" Point<2> __wrap__ZN12WorldBuilder10Parameters3getINS_5PointILj2EEEEET_RKNSt7__cxx1112basic_stringIcSt11char_traitsIcESaIcEEE(Parameters *, const std::string *)
 { return Point<2>(sym_f64("dip point x"), sym_f64("dip point y"), cartesian); }
@@ -91,4 +113,44 @@ extern "C" void h_c07_bounds_fault(unsigned long nc, unsigned long ns)
   auto *f = new Features::Fault(w);
   f->parse_entries(w->parameters);
   check_bounds(f, f->fault_segment_thickness, f->fault_segment_lengths, f->total_fault_length, f->maximum_fault_thickness, f->maximum_total_fault_length);
+}
+
+// C12.sections / C10.sections: section overrides.  k sections with arbitrary coordinate numbers, each with m segments; the default list has ns.
+// A section for a coordinate that does not exist, or with a different number of segments, must be rejected by an exception (and nothing may be
+// written out of bounds - the executor checks every access); otherwise every coordinate carries its own section's values (the last section that
+// names it), the default list elsewhere, and the culling bounds of C07 still dominate.
+template <class F> static void sections(const unsigned nc, const unsigned ns, const unsigned k, const unsigned m, const char *kind,
+                                        std::vector<std::vector<Point<2>>> F::*thick, std::vector<std::vector<double>> F::*lens, std::vector<double> F::*total, double F::*max_thick, double F::*max_len,
+                                        std::vector<std::vector<Point<2>>> F::*trunc, std::vector<std::vector<Point<2>>> F::*angles)
+{
+  n_coordinates = nc; n_segments = ns; n_overrides = k; n_override_segments = m; visits = 0; segment_calls = 0;
+  prm.u32_hook = coordinate_hook;
+  for (unsigned g = 0; g < ns; ++g) default_vals[g] = draw();
+  for (unsigned s = 0; s < k; ++s) { override_coordinate[s] = sym_u32("section coordinate"); for (unsigned g = 0; g < m; ++g) override_vals[s][g] = draw(); }
+  World *w = make_world(0);
+  auto *f = new F(w);
+  bool threw = false;
+  try { f->parse_entries(w->parameters); } catch (...) { threw = true; }
+  bool bad_coordinate = false; for (unsigned s = 0; s < k; ++s) if (override_coordinate[s] >= nc) bad_coordinate = true;
+  if (bad_coordinate) { sym_assert(threw, "a section for a coordinate that does not exist is rejected with an exception"); sym_reach("end-rejected"); return; }
+  if (m != ns) { sym_assert(threw, "a section whose number of segments differs from the default list is rejected with an exception"); sym_reach("end-rejected"); return; }
+  sym_assert(!threw, "consistent sections are accepted");
+  if (threw) return;
+  for (unsigned j = 0; j < nc; ++j)
+    {
+      const SegVals *vals = default_vals; for (unsigned s = 0; s < k; ++s) if (override_coordinate[s] == j) vals = override_vals[s];
+      for (unsigned g = 0; g < ns; ++g)
+        sym_assert(sym_eq((f->*lens)[j][g], vals[g].len) && sym_eq((f->*thick)[j][g][0], vals[g].t0) && sym_eq((f->*thick)[j][g][1], vals[g].t1)
+                   && sym_eq((f->*trunc)[j][g][0], vals[g].tr0) && sym_eq((f->*trunc)[j][g][1], vals[g].tr1)
+                   && sym_eq((f->*angles)[j][g][0], vals[g].d0 * (Consts::PI/180)) && sym_eq((f->*angles)[j][g][1], vals[g].d1 * (Consts::PI/180)),
+                   "every coordinate carries the segments of its own section, the default segment list when no section names it");
+    }
+  check_bounds(f, f->*thick, f->*lens, f->*total, f->*max_thick, f->*max_len);
+}
+extern "C" void h_c12_sections(unsigned long fault, unsigned long nc, unsigned long ns, unsigned long k, unsigned long m)
+{
+  if (fault) sections<Features::Fault>(unsigned(nc), unsigned(ns), unsigned(k), unsigned(m), "fault", &Features::Fault::fault_segment_thickness, &Features::Fault::fault_segment_lengths, &Features::Fault::total_fault_length,
+                                       &Features::Fault::maximum_fault_thickness, &Features::Fault::maximum_total_fault_length, &Features::Fault::fault_segment_top_truncation, &Features::Fault::fault_segment_angles);
+  else sections<Features::SubductingPlate>(unsigned(nc), unsigned(ns), unsigned(k), unsigned(m), "slab", &Features::SubductingPlate::slab_segment_thickness, &Features::SubductingPlate::slab_segment_lengths, &Features::SubductingPlate::total_slab_length,
+                                            &Features::SubductingPlate::maximum_slab_thickness, &Features::SubductingPlate::maximum_total_slab_length, &Features::SubductingPlate::slab_segment_top_truncation, &Features::SubductingPlate::slab_segment_angles);
 }
